@@ -15,7 +15,7 @@ EXHAUSTIVE = {"quick": False, "thorough": True}
 TRUSTED = ["\\d of the grammar regex is modelled for ASCII digits (non-ASCII digits answer EUnsupported and are skipped)"]
 ASSUMPTIONS = []
 
-BASE_TOKENS = ["a", 0, 3, 12, "0", "3", "é", "~", "/", "-", "x y", "007"]
+BASE_TOKENS = ["a", 0, 3, 12, "0", "3", "é", "~", "/", "-", "x y", "007", "C:\\temp", "\\u0041", "a\\", "\\n"]
 OFFSETS = ["", "+1", "-1", "+2", "-2", "+10", "-10", "+12", "-12"]
 SUFFIXES = ["", "#", "/b", "/~0~1", "/é/0", "/ a", "/a ", "/0/1"]
 MALFORMED = ["", "a", "#", "/a", "01", "00#", "0+0", "0-0", "0+01", "0+", "0-", "1+#", "0+1x", "0 #", " 0#", "0# ", "1e3", "-1",
